@@ -117,9 +117,20 @@ func c03Exchange(cs c03Case) (first, second *c03Out, d *harness.DAG) {
 				}
 			})
 		}
+		if cs.End == "cancelled-after-first-block" {
+			nb := 0
+			r.GS.RegisterOutgoingBlockHook(func(p peer.ID, rd graphsync.RequestData, b graphsync.BlockData, ha graphsync.OutgoingBlockHookActions) {
+				if rd.ID() == id {
+					nb++
+					if nb == 1 {
+						ha.PauseResponse()
+					}
+				}
+			})
+		}
 		q.Say(r.ID, harness.ReqMsg(gsmsg.NewRequest(id, d.Root.(cidlink.Link).Cid, sel.Node, 1, exts...)))
 		vsched.Quiesce()
-		if cs.End == "cancelled-before-start" {
+		if cs.End != "" {
 			q.Say(r.ID, harness.ReqMsg(gsmsg.NewCancelRequest(id)))
 			vsched.Quiesce()
 		}
@@ -287,6 +298,8 @@ func c03Run(cs c03Case) (sig, what, class string) {
 		if first.nblocks > 0 {
 			return "blocks-sent-for-a-request-cancelled-before-it-started", detail + fmt.Sprintf("%d blocks", first.nblocks), class
 		}
+	} else if cs.End == "cancelled-after-first-block" {
+		// (only what it leaves behind is judged)
 	} else if sig, what = c03Judge(d, ref, first, ignore, cs.Skip, ""); sig != "" {
 		return sig, detail + what, class
 	}
@@ -296,8 +309,10 @@ func c03Run(cs c03Case) (sig, what, class string) {
 		}
 		if sig, what = c03Judge(d, ref, second, map[string]bool{}, 0, "/follow-up-request"); sig != "" {
 			how := "finished"
-			if cs.End != "" {
+			if cs.End == "cancelled-before-start" {
 				how = "was cancelled before it started (paused by the request hook)"
+			} else if cs.End != "" {
+				how = "was cancelled while paused after its first block"
 			}
 			return sig, detail + "plain follow-up request after the first " + how + ": " + what, class
 		}
@@ -367,6 +382,11 @@ func runC03(c *core.Ctx) {
 								w.Second, w.End = true, "cancelled-before-start"
 								variants = append(variants, w)
 							}
+							if c.Thorough() || (ign == 0 && k <= 1) {
+								w := v
+								w.Second, w.End = true, "cancelled-after-first-block"
+								variants = append(variants, w)
+							}
 						}
 					}
 				}
@@ -409,7 +429,7 @@ func runC03(c *core.Ctx) {
 
 func init() {
 	core.Register(&core.Prop{ID: "C03", Level: "exploration",
-		Rule:        "shape catalogue (N<=3 all, N=4 one form variant; thorough N<=4) + one 3-block shape of ~200KiB blocks (output spans several messages) x selectors x subsets of blocks in the responder's store x do-not-send-cids subsets x do-not-send-first-blocks 0..N+1 x dedup key {none,k} (+ a plain follow-up request after keyed requests, and after a first request that was paused by the request hook and cancelled before it started) x 5 malformed extension payloads; a scripted requestor sends the request to a real responder and reads the wire; a class is a distinct (links, missing, root-miss, |ignore|, skip, keyed, malformed) combination",
+		Rule:        "shape catalogue (N<=3 all, N=4 one form variant; thorough N<=4) + one 3-block shape of ~200KiB blocks (output spans several messages) x selectors x subsets of blocks in the responder's store x do-not-send-cids subsets x do-not-send-first-blocks 0..N+1 x dedup key {none,k} (+ a plain follow-up request after keyed requests, and after a first request that was paused - by the request hook before it started, or by the block hook after its first block - and then cancelled) x 5 malformed extension payloads; a scripted requestor sends the request to a real responder and reads the wire; a class is a distinct (links, missing, root-miss, |ignore|, skip, keyed, malformed) combination",
 		Assumptions: []string{"reference: go-ipld-prime's walker over the responder's store gives the ordered (link, present/missing) list", "first blocks are counted per link traversal, present or missing (DESIGN 7); a block whose earlier occurrence in the request was skipped or sent is not sent again", "default schedule"},
 		Run:         runC03, QuickBudget: 300, ThoroughBudget: 2400,
 		Replay: func(raw json.RawMessage) string {
